@@ -245,6 +245,7 @@ inductive Ev where
   | freq (s : Int)             -- `sd[s]`
   | summ (s : Int)             -- `sd.split_edge_length_summaries.get(s)`
   | ages                       -- `sd.split_node_age_summaries` read (answer not modelled)
+  | refused (t : TreeRec)      -- an offer the library REFUSES (exception caught by the caller, who carries on): nothing may change
 
 inductive Ans where
   | freq (q : Rat)
@@ -255,6 +256,7 @@ def Cached.step (c : Cached) : Ev → Cached × Option Ans
   | .freq s => let r := c.getFreqs; (r.1, some (.freq ((lookupIn r.2 s).getD 0)))
   | .summ s => let r := c.getSummaries; (r.1, some (.summ (lookupIn r.2 s)))
   | .ages => (c.getAges, none)
+  | .refused _ => (c, none)
 
 /-- the answers a client sees over a history, through the caches -/
 def Cached.run (c : Cached) : List Ev → List Ans
@@ -270,6 +272,7 @@ def specRun (sd : SD) : List Ev → List Ans
   | .freq s :: es => .freq (freq sd s) :: specRun sd es
   | .summ s :: es => .summ (lookupIn (summaryTable sd) s) :: specRun sd es
   | .ages :: es => specRun sd es
+  | .refused _ :: es => specRun sd es
 
 /-! ### rooting refusals of `collapse_edges_with_less_than_minimum_support` -/
 
